@@ -26,6 +26,12 @@ type Obligation struct {
 	Seconds float64
 }
 
+// Axioms about restricted map sums, added only to queries that use prefix sets (C05/C06).
+const msumRAxioms = `(assert (forall ((d (Array Int Bool)) (v (Array Int Int)) (s (Array Int Bool)) (k Int)) (! (= (msumR d v (store s k true)) (+ (msumR d v s) (ite (and (select d k) (not (select s k))) (nn (select v k)) 0))) :pattern ((msumR d v (store s k true))))))
+(assert (forall ((d (Array Int Bool)) (v (Array Int Int))) (! (= (msumR d v ((as const (Array Int Bool)) false)) 0) :pattern ((msumR d v ((as const (Array Int Bool)) false))))))
+(assert (forall ((d (Array Int Bool)) (v (Array Int Int)) (s (Array Int Bool))) (! (and (>= (msumR d v s) 0) (<= (msumR d v s) (msum d v)) (=> (forall ((k Int)) (=> (select d k) (select s k))) (= (msumR d v s) (msum d v)))) :pattern ((msumR d v s)))))
+`
+
 func hasTag(tags []string, t string) bool {
 	for _, x := range tags {
 		if x == t {
@@ -92,6 +98,34 @@ func loadSpecs(o *Options) (*Specs, error) {
 	return sp, nil
 }
 
+var theSpecs *Specs
+
+func predOf(pkg, name string) *PredSpec {
+	if theSpecs == nil {
+		return nil
+	}
+	if p := theSpecs.Preds[pkg+"."+name]; p != nil {
+		return p
+	}
+	return theSpecs.Preds["."+name]
+}
+
+// clauseTaggedIn: some clause carries the tag; a clause that applies a predicate of package
+// pkg carries the tags of the predicate's clauses (two levels).
+func clauseTaggedIn(pkg string, cs []*Clause, prop string, depth int) bool {
+	for _, c := range cs {
+		if hasTag(c.Tags, prop) {
+			return true
+		}
+		if c.Expr != nil && c.Expr.Op == "call" && depth < 3 {
+			if p := predOf(pkg, c.Expr.Name); p != nil && clauseTaggedIn(pkg, p.Clauses, prop, depth+1) {
+				return true
+			}
+		}
+	}
+	return false
+}
+
 func clauseTagged(cs []*Clause, prop string) bool {
 	for _, c := range cs {
 		if hasTag(c.Tags, prop) {
@@ -108,11 +142,11 @@ func relevantPackages(sp *Specs, prop string) map[string]bool {
 		if f.External {
 			continue
 		}
-		if clauseTagged(f.Clauses, prop) {
+		if clauseTaggedIn(f.Pkg, f.Clauses, prop, 0) {
 			out[f.Pkg] = true
 		}
 		for _, l := range f.Loops {
-			if clauseTagged(l.Clauses, prop) {
+			if clauseTaggedIn(f.Pkg, l.Clauses, prop, 0) {
 				out[f.Pkg] = true
 			}
 		}
@@ -133,7 +167,7 @@ func relevantPackages(sp *Specs, prop string) map[string]bool {
 // funcInSlice: a function is verified in the run of property prop if one of its clauses
 // is tagged prop, or if all of its clauses are untagged / tagged * only.
 func funcInSlice(f *FuncSpec, prop string) bool {
-	if clauseTagged(f.Clauses, prop) {
+	if clauseTaggedIn(f.Pkg, f.Clauses, prop, 0) {
 		return true
 	}
 	onlyStar := true
@@ -148,7 +182,7 @@ func funcInSlice(f *FuncSpec, prop string) bool {
 	}
 	check(f.Clauses)
 	for _, l := range f.Loops {
-		if clauseTagged(l.Clauses, prop) {
+		if clauseTaggedIn(f.Pkg, l.Clauses, prop, 0) {
 			return true
 		}
 		check(l.Clauses)
@@ -157,11 +191,11 @@ func funcInSlice(f *FuncSpec, prop string) bool {
 }
 
 func funcHasTag(f *FuncSpec, prop string) bool {
-	if clauseTagged(f.Clauses, prop) {
+	if clauseTaggedIn(f.Pkg, f.Clauses, prop, 0) {
 		return true
 	}
 	for _, l := range f.Loops {
-		if clauseTagged(l.Clauses, prop) {
+		if clauseTaggedIn(f.Pkg, l.Clauses, prop, 0) {
 			return true
 		}
 	}
@@ -349,6 +383,7 @@ func runCheck(o *Options) (int, *Evidence) {
 	if err != nil {
 		return undecided(ev, "CONTRACT-ERROR "+err.Error())
 	}
+	theSpecs = sp
 	pk := relevantPackages(sp, o.prop)
 	if len(pk) == 0 {
 		return undecided(ev, "no contract clause is tagged "+o.prop)
@@ -394,6 +429,7 @@ func runCheck(o *Options) (int, *Evidence) {
 	var jobs []*job
 	var execs []*Exec
 	funcTagged := map[string]bool{}
+	divergeOK := map[string]bool{}
 	var errs []string
 	var funcs []string
 	var trusted []string
@@ -416,6 +452,9 @@ func runCheck(o *Options) (int, *Evidence) {
 		}
 		if funcHasTag(fsq, o.prop) {
 			funcTagged[fi.name()] = true
+		}
+		if fsq.MayDiverge {
+			divergeOK[fi.name()] = true
 		}
 		x := verifyFunc(w, sp, prog, fi, fsq, o.prop)
 		execs = append(execs, x)
@@ -443,6 +482,9 @@ func runCheck(o *Options) (int, *Evidence) {
 				for _, a := range sp.SMTAxioms {
 					pre += "(assert " + a + ")\n"
 				}
+			}
+			if strings.Contains(body, "(pset ") {
+				pre += msumRAxioms
 			}
 			jobs = append(jobs, &job{q: q, text: pre + body})
 		}
@@ -667,6 +709,9 @@ func runCheck(o *Options) (int, *Evidence) {
 		ob := obs[n]
 		if ob.Kind == "cover" {
 			if ob.Status == "vacuous" {
+				if strings.HasSuffix(n, "#cover:return") && divergeOK[ob.Func] {
+					continue
+				}
 				vac = append(vac, "VACUOUS "+n)
 			}
 			continue
